@@ -81,7 +81,7 @@ func c05World(c *Ctx) *refgraph.World {
 			params = params.Set(name, wire.ObjV(wire.M("name", wire.StrV(tag)), wire.M("in", wire.StrV("query")), wire.M("type", wire.StrV("array")),
 				wire.M("items", wire.ObjV(wire.M("type", wire.StrV("string")), wire.M("format", wire.StrV(tag))))))
 			resps = resps.Set(name, wire.ObjV(wire.M("description", wire.StrV(tag)), wire.M("schema", wire.ObjV(wire.M("$ref", wire.StrV("#/definitions/"+refgraph.PtrEscape(name)))))))
-			pis = pis.Set("/"+name, wire.ObjV(wire.M("get", wire.ObjV(wire.M("description", wire.StrV(tag)), wire.M("responses", wire.ObjV(wire.M("200", wire.ObjV(wire.M("description", wire.StrV("ok"))))))))))
+			pis = pis.Set("/"+name, wire.ObjV(wire.M("get", wire.ObjV(wire.M("description", wire.StrV(tag)), wire.M("responses", wire.ObjV(wire.M("200", wire.ObjV(wire.M("description", wire.StrV("ok")))), wire.M("default", wire.ObjV(wire.M("description", wire.StrV("anything else "+tag))))))))))
 		}
 		defs = defs.Set("plain", wire.ObjV(wire.M("type", wire.StrV("string")), wire.M("description", wire.StrV(fmt.Sprintf("plain-of-doc%d", di)))))
 		doc = doc.Set("definitions", defs).Set("parameters", params).Set("responses", resps)
